@@ -10,7 +10,9 @@ def one(d):
     subprocess.run(['git', '-C', '/repo', 'worktree', 'add', '--detach', wt, head], capture_output=True)
     try:
         r = subprocess.run(['git', '-C', wt, 'apply', f'{d}/patch.diff'], capture_output=True, text=True)
-        if r.returncode: return sid, 'patch-fails', ''
+        if r.returncode:   # the tree moved on (fix: commits): fall back to a three-way merge of the stored patch
+            r = subprocess.run(['git', '-C', wt, 'apply', '--3way', f'{d}/patch.diff'], capture_output=True, text=True)
+            if r.returncode: return sid, 'patch-fails', ''
         p = subprocess.run(['./check', prop, 'quick'], cwd='/verif', env=dict(os.environ, VERIF_REPO=wt), capture_output=True, text=True)
         lines = [l for l in p.stdout.splitlines() if l.startswith('VIOLATION')]
         kind = 'missed' if p.returncode == 0 else ('failing-input' if any('no-failing-input-found' not in l for l in lines) else 'no-failing-input-found')
